@@ -729,26 +729,32 @@ func IsValidFilter(filter string, forPublish bool) bool {
 		if strings.ContainsRune(filter, '+') || strings.ContainsRune(filter, '#') {
 			return false //[MQTT-3.3.2-2]
 		}
+
+		return true // the share name rules below apply to subscription filters only
 	}
 
-	wildhash := strings.IndexRune(filter, '#')
-	if wildhash >= 0 && wildhash != len(filter)-1 { // [MQTT-4.7.1-2]
-		return false
+	levels := strings.Split(filter, "/")
+	for i, level := range levels {
+		if strings.ContainsRune(level, '#') && (level != "#" || i != len(levels)-1) { // [MQTT-4.7.1-2]
+			return false
+		}
+
+		if strings.ContainsRune(level, '+') && level != "+" { // [MQTT-4.7.1-3]
+			return false
+		}
 	}
 
-	prefix, hasNext := isolateParticle(filter, 0)
-	if !hasNext && strings.EqualFold(prefix, SharePrefix) {
-		return false // [MQTT-4.8.2-1]
-	}
-
-	if hasNext && strings.EqualFold(prefix, SharePrefix) {
-		group, hasNext := isolateParticle(filter, 1)
-		if !hasNext {
+	if strings.EqualFold(levels[0], SharePrefix) {
+		if len(levels) < 3 {
 			return false // [MQTT-4.8.2-1]
 		}
 
-		if strings.ContainsRune(group, '+') || strings.ContainsRune(group, '#') {
-			return false // [MQTT-4.8.2-2]
+		if len(levels[1]) == 0 || strings.ContainsRune(levels[1], '+') || strings.ContainsRune(levels[1], '#') {
+			return false // [MQTT-4.8.2-1] [MQTT-4.8.2-2]
+		}
+
+		if len(levels) == 3 && len(levels[2]) == 0 {
+			return false // [MQTT-4.8.2-1] the share name must be followed by a non-empty filter
 		}
 	}
 
